@@ -177,3 +177,371 @@ def decode_literal(text, escape, wm, ws, quote, add_escaped, quoted):
     if quoted and not closed:
         return None, "unterminated-literal"
     return norm(out), None
+
+
+# =================================================================================================
+# Part 2: value modifiers (model values) --------------------------------------------------------
+import base64 as _b64
+import ipaddress as _ip
+import re as _re
+
+
+class Reject(Exception):
+    """the specification says this chain/value combination must be rejected with a Sigma error"""
+
+
+class Unspecified(Exception):
+    """the property statement / documentation does not define the outcome"""
+
+
+# model values are tuples: ("str", cased, parts) ("num", n) ("bool", b) ("null",) ("re", text, flags)
+# ("cidr", text) ("cmp", op, value) ("fieldref", name, sw, ew) ("exists", b) ("tspart", part, n) ("exp", (values...))
+
+TS_PARTS = {"minute": "MINUTE", "hour": "HOUR", "day": "DAY", "week": "WEEK", "month": "MONTH", "year": "YEAR"}
+CMP_OPS = {"lt": "LT", "lte": "LTE", "gt": "GT", "gte": "GTE"}
+RE_FLAGS = {"i": "IGNORECASE", "ignorecase": "IGNORECASE", "m": "MULTILINE", "multiline": "MULTILINE", "s": "DOTALL", "dotall": "DOTALL"}
+DASHES = ("-", "/", "–", "—", "―")
+ALL_MODIFIERS = ["all", "neq", "base64", "base64offset", "cased", "cidr", "contains", "day", "dotall", "endswith", "exists",
+                 "expand", "fieldref", "gt", "gte", "hour", "i", "ignorecase", "lt", "lte", "m", "minute", "month",
+                 "multiline", "re", "utf16", "utf16be", "s", "startswith", "week", "wide", "windash", "year"]
+
+
+def model_value(v):
+    """plain YAML value -> model value"""
+    if isinstance(v, bool):
+        return ("bool", v)
+    if isinstance(v, (int, float)):
+        return ("num", int(v) if float(v) == int(v) else float(v))
+    if v is None:
+        return ("null",)
+    if isinstance(v, str):
+        return ("str", False, parse_sigma_string(v))
+    raise Unspecified(f"value type {type(v).__name__}")
+
+
+def _literal(parts):
+    return "".join(p for p in parts if isinstance(p, str))
+
+
+def _has_wild(parts):
+    return any(p in (MULTI, SINGLE) for p in parts)
+
+
+def _has_ph(parts):
+    return any(isinstance(p, tuple) for p in parts)
+
+
+def _smuggle(text, codec):
+    """UTF-16 bytes represented as a str whose UTF-8 encoding is those bytes (the representation the library uses)"""
+    try:
+        return text.encode(codec).decode("utf-8")
+    except UnicodeDecodeError:
+        raise Reject("not representable")
+
+
+def b64offset_values(data):
+    out = []
+    for i in range(3):
+        enc = _b64.b64encode(b" " * i + data).decode()
+        start = (0, 2, 3)[i]
+        r = (len(data) + i) % 3
+        end = {0: None, 1: -3, 2: -2}[r]
+        out.append(enc[start:end])
+    return out
+
+
+def windash_variants(parts):
+    """cross product over all parameter-position dashes (first position most significant)"""
+    slots = []  # list of lists of alternative part-tuples
+    for p in parts:
+        if not isinstance(p, str):
+            slots.append([(p,)])
+            continue
+        pos = 0
+        for m in _re.finditer(r"\B[-/]\b", p):
+            if m.start() > pos:
+                slots.append([(p[pos : m.start()],)])
+            slots.append([(d,) for d in DASHES])
+            pos = m.end()
+        if pos < len(p):
+            slots.append([(p[pos:],)])
+    import itertools
+
+    res = []
+    for combo in itertools.product(*slots) if slots else [()]:
+        res.append(norm([x for c in combo for x in c]))
+    return res
+
+
+def expand_placeholders(parts):
+    out = []
+    for p in parts:
+        if not isinstance(p, str):
+            out.append(p)
+            continue
+        if "%%" in p:
+            raise Unspecified("adjacent percent signs")
+        # tokens: escaped percent, percent, other chars
+        toks = _re.findall(r"\\%|%|[^%\\]+|\\", p)
+        i, acc = 0, []
+        while i < len(toks):
+            t = toks[i]
+            if t == "\\%":
+                acc.append("%")
+                i += 1
+            elif t == "%":
+                # find the closing unescaped percent
+                j = i + 1
+                name = []
+                while j < len(toks) and toks[j] != "%":
+                    if toks[j] == "\\%":
+                        raise Unspecified("escaped percent inside a placeholder candidate")
+                    name.append(toks[j])
+                    j += 1
+                if j >= len(toks):
+                    # single unmatched percent: stays literal
+                    acc.append("%")
+                    i += 1
+                    continue
+                nm = "".join(name)
+                if nm == "":
+                    raise Unspecified("empty placeholder name")
+                if nm.endswith("\\"):
+                    raise Unspecified("backslash before the closing percent")
+                out.append("".join(acc))
+                acc = []
+                out.append(("P", nm))
+                i = j + 1
+            else:
+                acc.append(t)
+                i += 1
+        out.append("".join(acc))
+    return norm(out)
+
+
+def _valid_regex(text, flags=()):
+    try:
+        f = 0
+        for x in flags:
+            f |= {"IGNORECASE": _re.I, "MULTILINE": _re.M, "DOTALL": _re.S}[x]
+        _re.compile(text, f)
+        return True
+    except _re.error:
+        return False
+
+
+def apply_value_modifier(mod, v, applied, has_field, raw):
+    """one value modifier on one model value. raw = original plain value (needed by re)."""
+    k = v[0]
+    if k == "exp":
+        return ("exp", tuple(apply_value_modifier(mod, x, applied, has_field, raw) for x in v[1]))
+    if mod in ("contains", "startswith", "endswith"):
+        front = mod in ("contains", "endswith")
+        back = mod in ("contains", "startswith")
+        if k == "str":
+            parts = list(v[2])
+            if front and not (parts and parts[0] == MULTI):
+                parts.insert(0, MULTI)
+            if back and not (parts and parts[-1] == MULTI):
+                parts.append(MULTI)
+            return ("str", v[1], norm(parts))
+        if k == "re":
+            t = v[1]
+            if t == "":
+                raise Unspecified("empty regular expression")
+            if _has_ph_text(t):
+                raise Unspecified("regex with placeholders")
+            if front and not (t.startswith(".*") or t.startswith("^")):
+                t = ".*" + t
+            if back and not (v[1].endswith(".*") or v[1].endswith("$")):
+                t = t + ".*"
+            if not _valid_regex(t, v[2]):
+                raise Reject("invalid regex")
+            return ("re", t, v[2])
+        if k == "fieldref":
+            return ("fieldref", v[1], v[2] or back, v[3] or front)
+        raise Reject(mod + " on " + k)
+    if mod in ("base64", "base64offset", "wide", "utf16", "utf16be"):
+        if k != "str":
+            raise Reject(mod + " on " + k)
+        if v[1]:
+            raise Unspecified("encoding of a cased string")
+        if _has_ph(v[2]):
+            raise Unspecified("encoding of placeholders")
+        if mod in ("base64", "base64offset"):
+            if _has_wild(v[2]):
+                raise Reject("wildcards")
+            data = _literal(v[2]).encode("utf-8")
+            if mod == "base64":
+                return ("str", False, norm([_b64.b64encode(data).decode()]))
+            return ("exp", tuple(("str", False, norm([t])) for t in b64offset_values(data)))
+        codec = {"wide": "utf-16-le", "utf16": "utf-16-le", "utf16be": "utf-16-be"}[mod]
+        parts = [(_smuggle(p, codec) if isinstance(p, str) else p) for p in v[2]]
+        if mod == "utf16":
+            parts.insert(0, "﻿")
+        return ("str", False, norm(parts))
+    if mod == "windash":
+        if k != "str":
+            raise Reject("windash on " + k)
+        if _has_ph(v[2]):
+            raise Unspecified("windash with placeholders")
+        return ("exp", tuple(("str", v[1], p) for p in windash_variants(v[2])))
+    if mod == "re":
+        if k != "str" or v[1]:
+            raise Reject("re on " + k)
+        if applied:
+            raise Reject("re only on unmodified values")
+        if not isinstance(raw, str):
+            raise Reject("re on non-string")
+        if not _valid_regex(raw):
+            raise Reject("invalid regex")
+        return ("re", raw, ())
+    if mod in RE_FLAGS:
+        if k != "re":
+            raise Reject("flag on " + k)
+        fl = tuple(sorted(set(v[2]) | {RE_FLAGS[mod]}))
+        return ("re", v[1], fl)
+    if mod == "cased":
+        if k != "str":
+            raise Reject("cased on " + k)
+        if v[1]:
+            raise Unspecified("cased twice")
+        return ("str", True, v[2])
+    if mod == "cidr":
+        if k != "str" or v[1]:
+            raise Reject("cidr on " + k)
+        if [m for m in applied if m not in ("all", "neq")]:
+            raise Reject("cidr only on unmodified values")
+        if applied:
+            raise Unspecified("list modifier before cidr")
+        text = plain_of(v[2])
+        try:
+            _ip.ip_network(text)
+        except ValueError:
+            raise Reject("invalid cidr")
+        return ("cidr", text)
+    if mod == "fieldref":
+        if k != "str":
+            raise Reject("fieldref on " + k)
+        if _has_wild(v[2]):
+            raise Reject("wildcards")
+        lit = _literal(v[2])
+        if v[1] or _has_ph(v[2]) or any(c in lit for c in "*?\\"):
+            raise Unspecified("fieldref of escaped/cased value")
+        return ("fieldref", lit, False, False)
+    if mod == "exists":
+        if k != "bool":
+            raise Reject("exists on " + k)
+        if not has_field:
+            raise Reject("exists without field")
+        if [m for m in applied if m not in ("all", "neq")]:
+            raise Reject("exists only on unmodified values")
+        if applied:
+            raise Unspecified("list modifier before exists")
+        return ("exists", v[1])
+    if mod == "expand":
+        if k == "str":
+            return ("str", v[1], expand_placeholders(v[2]))
+        if k == "re":
+            raise Unspecified("expand on regex (see C17)")
+        raise Reject("expand on " + k)
+    if mod in CMP_OPS:
+        if k == "num" or k == "tspart":
+            return ("cmp", CMP_OPS[mod], v)
+        raise Reject(mod + " on " + k)
+    if mod in TS_PARTS:
+        if k == "num":
+            if v[1] != int(v[1]):
+                raise Unspecified("timestamp part of a non-integer")
+            return ("tspart", TS_PARTS[mod], int(v[1]))
+        if k == "tspart":
+            raise Unspecified("timestamp part twice")
+        raise Reject(mod + " on " + k)
+    raise Unspecified("unknown modifier " + mod)
+
+
+def _has_ph_text(t):
+    return False
+
+
+def apply_chain(raw_values, chain, has_field=True):
+    """returns (values, linking 'or'|'and', negated) ; raises Reject / Unspecified"""
+    for m in chain:
+        if m not in ALL_MODIFIERS:
+            raise Reject("unknown modifier")
+    if not raw_values:  # no values: value modifiers have nothing to act on
+        return [], ("and" if "all" in chain else "or"), ("neq" in chain)
+    if "re" in chain:
+        # the library keeps the raw, unparsed text of every value when 're' occurs anywhere in the chain
+        p = chain.index("re")
+        before = [m for m in chain[:p] if m not in ("all", "neq")]
+        if before:
+            raise Reject("re only on unmodified values")
+        if p > 0:
+            raise Unspecified("list modifier before re")
+        for r in raw_values:
+            if not isinstance(r, str):
+                raise Reject("re on non-string")
+        vals = [("str", False, norm([r])) for r in raw_values]
+    else:
+        vals = [model_value(r) for r in raw_values]
+    raws = list(raw_values)
+    linking, negated = "or", False
+    applied = []
+    for m in chain:
+        if m == "all":
+            linking = "and"
+        elif m == "neq":
+            negated = True
+        else:
+            vals = [apply_value_modifier(m, v, applied, has_field, r) for v, r in zip(vals, raws)]
+        applied.append(m)
+    return vals, linking, negated
+
+
+def flatten_exp(v):
+    if v[0] != "exp":
+        return v
+    out = []
+    for x in v[1]:
+        x = flatten_exp(x)
+        if x[0] == "exp":
+            out.extend(x[1])
+        else:
+            out.append(x)
+    return ("exp", tuple(out))
+
+
+def project_value(v):
+    """real SigmaType -> model value"""
+    from sigma import types as st
+
+    if isinstance(v, st.SigmaExpansion):
+        return flatten_exp(("exp", tuple(project_value(x) for x in v.values)))
+    if isinstance(v, st.SigmaCasedString):
+        return ("str", True, norm(from_sigma(v)))
+    if isinstance(v, st.SigmaString):
+        return ("str", False, norm(from_sigma(v)))
+    if isinstance(v, st.SigmaTimestampPart):
+        return ("tspart", v.timestamp_part.name, v.number)
+    if isinstance(v, st.SigmaNumber):
+        return ("num", v.number)
+    if isinstance(v, st.SigmaBool):
+        return ("bool", v.boolean)
+    if isinstance(v, st.SigmaNull):
+        return ("null",)
+    if isinstance(v, st.SigmaRegularExpression):
+        parts = from_sigma(v.regexp)
+        text = "".join(p if isinstance(p, str) else SPECIAL_CH.get(p, "%" + p[1] + "%" if isinstance(p, tuple) else "?") for p in parts)
+        return ("re", text, tuple(sorted(f.name for f in v.flags)))
+    if isinstance(v, st.SigmaCIDRExpression):
+        return ("cidr", v.cidr)
+    if isinstance(v, st.SigmaCompareExpression):
+        return ("cmp", v.op.name, project_value(v.number))
+    if isinstance(v, st.SigmaFieldReference):
+        return ("fieldref", v.field, bool(v.starts_with), bool(v.ends_with))
+    if isinstance(v, st.SigmaExists):
+        return ("exists", bool(v.exists))
+    if isinstance(v, st.SigmaQueryExpression):
+        return ("query", v.expr, v.id)
+    return ("?", repr(v))
